@@ -2116,6 +2116,7 @@ package main
 //@   modifies maps
 //@   requires carve-out-F11-no-recursive-record-type: records_wellfounded()
 //@   panics may
+//@   ensures-assumed calls-its-parameter-only-on-variables-it-reaches: forall j int :: {arg(transTV, j)} old(calls(transTV)) <= j && j < calls(transTV) ==> reach_tv(arg(transTV, j).Name, ftp)
 
 // ---------------------------------------------------------------------------------------------
 // C06, blocks: a block is the statements parsed while the current token is not left of the block's
@@ -2200,3 +2201,18 @@ package main
 //@   at before call buf.New#0: TMP = tmpVarName
 //@   at after call slice.Map#0: CS = ret
 //@   at before call slice.Map#0: US = _r0
+
+//@ func rsLookupEI
+//@   trusted
+//@   panics never
+//@   returns-def eiof(res, tvname)
+//@   note abstract view of the resolver's table, taken as stable while a type is being resolved (resolution only reads it)
+
+// the type a type variable resolves to: follows the recorded types until variables that stand for themselves
+//@ func resolveOneTypeVar
+//@   props C16
+//@   modifies maps
+//@   requires carve-out-F11-no-recursive-record-type: records_wellfounded()
+//@   requires carve-out-F10-acyclic-resolver: resolver_acyclic(rsv)
+//@   panics may
+//@   decreases tvrank(rsv, tv.Name)
